@@ -389,6 +389,21 @@ def structured_graphs(thorough):
     out.append(("K6", *clique(6), METHODS))
     out.append(("path6", 6, [[i, i + 1] for i in range(5)], METHODS))
     out.append(("star6+isolated", 7, [[0, i] for i in range(1, 6)], METHODS))
+
+    def path_joined_to_two_cliques(p, q):
+        """a path on p vertices (numbered first) completely joined to two disjoint q-cliques: many k-separators
+        whose components are not embeddable -- stresses the NO / YES bookkeeping of acb_connected"""
+        e = [[i, i + 1] for i in range(p - 1)]
+        for c0 in (p, p + q):
+            e += [[c0 + i, c0 + j] for i, j in pairs(q)]
+            e += [[i, c0 + j] for i in range(p) for j in range(q)]
+        return p + 2 * q, sorted(e)
+
+    out.append(("P6*(K3+K3)", *path_joined_to_two_cliques(6, 3), ("acb", "min_fill")))
+    out.append(("P4*(K2+K2)", *path_joined_to_two_cliques(4, 2), METHODS))
+    if thorough:
+        out.append(("P7*(K4+K4)", *path_joined_to_two_cliques(7, 4), ("acb", "min_fill")))
+        out.append(("P5*(K3+K3)", *path_joined_to_two_cliques(5, 3), METHODS))
     if thorough:
         out.append(("grid3x3", *grid(3, 3), METHODS))
         out.append(("grid3x4", *grid(3, 4), METHODS))
